@@ -190,8 +190,13 @@ def run(chk, tier):
                 cand = [(o["file"], o["kind"]) for o in r.obs if o["st"] != "complete"]
             fk = cand[0] if cand else (0, "none")
         src = case.faults.get(fk, "none")
-        if src == "nodir" and fk[1] == "c" and "main" in case.kinds:
-            src = "nodir+Fmain"     # -Fc=<fn> together with -Fmain: a different mechanism than the missing directory
+        # -Fc=<fn> together with -Fmain: the generated main file lands on <fn> -- a different mechanism than the
+        # missing directory, and the one at work whenever the main file is missing after such a command
+        named_c = [x for x, s_ in case.faults.items() if x[1] == "c" and s_ == "nodir"]
+        if named_c and "main" in case.kinds and r.rc == 0 and \
+                any(o["kind"] == "main" and o["st"] != "complete" for o in r.obs) and \
+                (fk[1] in ("c", "main") or all(o["st"] == "complete" for o in r.obs if o["kind"] != "main")):
+            fk, src = named_c[0], "nodir+Fmain"
         if r.signal:
             cls = "crash"
         elif r.timeout:
